@@ -44,6 +44,7 @@ void reb_integrator_leapfrog_part1(struct reb_simulation* r){
 		particles[i].y  += 0.5* dt * particles[i].vy;
 		particles[i].z  += 0.5* dt * particles[i].vz;
 	}
+	REB_VERIF(r, "lf_drift", 2, 0.5*dt, r->dt);
 	r->t+=dt/2.;
 }
 void reb_integrator_leapfrog_part2(struct reb_simulation* r){
@@ -59,6 +60,8 @@ void reb_integrator_leapfrog_part2(struct reb_simulation* r){
 		particles[i].y  += 0.5* dt * particles[i].vy;
 		particles[i].z  += 0.5* dt * particles[i].vz;
 	}
+	REB_VERIF(r, "lf_kick", 2, dt, r->dt);
+	REB_VERIF(r, "lf_drift", 2, 0.5*dt, r->dt);
 	r->t+=dt/2.;
 	r->dt_last_done = r->dt;
 }
